@@ -62,7 +62,7 @@ CUSTOM_STYLES = {
     "custom6var": ("0:", "1::", "<2>", "<3>>", "<4+>", "<5++>"),  # prefix-free, different widths
 }
 TITLES = (None, False, "My Title", True)
-REPRS = ("default", "template", "callable")
+REPRS = ("default", "template", "callable", "empty")  # "empty": the valid format string "" (every rendering is "", lines are the bare prefixes)
 JOINS = ("\n", ", ")
 BAD_TUPLES = ((), ("a", "b", "c"), ("a", "b", "c", "d", "e"), ("a", "b", "c", "d", "e", "f", "g"))
 CALL_TIMEOUT = 10.0
@@ -157,11 +157,13 @@ def rendering(node, repr_kind: str, typed: bool) -> str:
         return repr(node._data)
     if repr_kind == "template":
         return f"{node._data}"
+    if repr_kind == "empty":
+        return ""
     return f"<{node._data}>"
 
 
 def repr_arg(repr_kind: str):
-    return {"default": None, "template": "{node.data}", "callable": _callable_repr}[repr_kind]
+    return {"default": None, "template": "{node.data}", "callable": _callable_repr, "empty": ""}[repr_kind]
 
 
 def expected_prefix(info: Info, i: int, level: int, seg) -> str:
